@@ -15,5 +15,6 @@ CONSTANTS
   SignalOnInsert = FALSE
   FirstSighting = TRUE
   SeedAtomic = TRUE
+  RegisterInThunk = TRUE
 PROPERTIES P_C18_NoLostWake P_C18_CancelReturns P_C18_PullReturns
 CHECK_DEADLOCK FALSE
